@@ -111,8 +111,16 @@ m('M45c-copy-from-1', ['C19'], ('goldilocks/utils.go', "\tfor i := 0; i < len(in
 m('M45d-siblings-shifted', ['C19'], (VD, "\t\thashBigInt, _ := new(big.Int).SetString(rawHashes[i], 10)", "\t\thashBigInt, _ := new(big.Int).SetString(rawHashes[len(rawHashes)-1-i], 10)"))
 m('M45e-merkleproofraw-swallow', ['C19'], (TD, "\tif err := json.Unmarshal(data, &siblings); err != nil {\n\t\tpanic(err)\n\t}\n", "\tif err := json.Unmarshal(data, &siblings); err != nil {\n\t\treturn nil\n\t}\n"))
 
+# ---- C10 (narrow)
+PB = 'poseidon/bn254.go'
+m('M60-hashornoop-threshold-4', ['C10'], (PB, "\tif len(input) <= 3 {", "\tif len(input) <= 4 {"))
+m('M61-hashnopad-4-limbs', ['C10'], (PB, "\t\t\tendJ := c.min(len(rateChunk), j+3)", "\t\t\tendJ := c.min(len(rateChunk), j+4)"))
+m('M62-tovec-chunk-64', ['C10'], (PB, "\tchunkSize := 56", "\tchunkSize := 64"))
+m('M63-pack-base-2-32', ['C10'], (PB, "\t\talpha = new(big.Int).Mul(alpha, alpha)\n", ""))
+m('M64-tovec-width-254', ['C10', 'C11'], (PB, "\tbits := c.api.ToBinary(hash)", "\tbits := c.api.ToBinary(hash, 254)"))
+
 # ---- behaviour-preserving refactors: must stay silent on every property
-ALL = ['C01', 'C03', 'C04', 'C05', 'C06', 'C07', 'C08', 'C09', 'C11', 'C12', 'C13', 'C14', 'C16', 'C17', 'C18', 'C19', 'C20']
+ALL = ['C01', 'C02', 'C03', 'C04', 'C05', 'C06', 'C07', 'C08', 'C09', 'C10', 'C11', 'C12', 'C13', 'C14', 'C16', 'C17', 'C18', 'C19', 'C20']
 m('R02-inline-assertLeadingZeros', [], (F, "\tf.assertLeadingZeros(friChallenges.FriPowResponse, f.friParams.Config)\n", "\tf.gl.RangeCheckWithMaxBits(friChallenges.FriPowResponse, 64-f.friParams.Config.ProofOfWorkBits)\n"))
 m('R03-indexed-loops-sweep', [], (V, "\tfor _, wire := range proof.Openings.Wires {\n\t\tc.glChip.RangeCheckQE(wire)\n\t}", "\tfor i := 0; i < len(proof.Openings.Wires); i++ {\n\t\tc.glChip.RangeCheckQE(proof.Openings.Wires[i])\n\t}"))
 m('R04-split-ext-assert', [], (P, "\t\tglApi.AssertIsEqualExtension(vanishingPolysZeta[i], prod)", "\t\tglApi.AssertIsEqual(vanishingPolysZeta[i][0], prod[0])\n\t\tglApi.AssertIsEqual(vanishingPolysZeta[i][1], prod[1])"))
@@ -125,6 +133,8 @@ m('R10-hoist-glchip', [], (V, "func (c *VerifierChip) rangeCheckProof(proof vari
 m('R01-extract-fold-helper', [], (F, "\t\tf.gl.AssertIsEqual(newEval[0], oldEval[0])\n\t\tf.gl.AssertIsEqual(newEval[1], oldEval[1])\n", "\t\tf.assertSame(newEval, oldEval)\n"), (F, "func (f *Chip) VerifyFriProof(", "func (f *Chip) assertSame(a, b gl.QuadraticExtensionVariable) {\n\tf.gl.AssertIsEqual(a[0], b[0])\n\tf.gl.AssertIsEqual(a[1], b[1])\n}\n\nfunc (f *Chip) VerifyFriProof("))
 m('R13-rename-locals', [], (F, "\tcurrentDigest := f.poseidonBN254Chip.HashOrNoop(leafData)", "\tcurrentDigest := f.poseidonBN254Chip.HashOrNoop(leafData)\n\t_ = len(leafIndexBits)"))
 m('R14-rounds-indexed', [], (F, "\tfor idx, xIndex := range friChallenges.FriQueryIndices {\n\t\troundProof := friProof.QueryRoundProofs[idx]\n", "\tfor idx := 0; idx < len(friChallenges.FriQueryIndices); idx++ {\n\t\txIndex := friChallenges.FriQueryIndices[idx]\n\t\troundProof := friProof.QueryRoundProofs[idx]\n"))
+
+m('R19-hoist-packing-constants', [], (PB, "const BN254_FULL_ROUNDS int = 8", "var (\n\tpackTwo32 = new(big.Int).SetInt64(1 << 32)\n\tpackTwo64 = new(big.Int).Mul(packTwo32, packTwo32)\n)\n\nconst BN254_FULL_ROUNDS int = 8"), (PB, "\ttwo_to_32 := new(big.Int).SetInt64(1 << 32)\n\ttwo_to_64 := new(big.Int).Mul(two_to_32, two_to_32)\n", "\ttwo_to_64 := packTwo64\n"))
 
 if __name__ == '__main__':
     import json, sys
